@@ -440,9 +440,12 @@ func (tps *TPS) combineShares() PK {
 		}
 
 		share := tps.shares[party]
+		// The sum of the shares is a scalar: it is reduced modulo the group order, else it outgrows its encoding
 		tps.sk.x = tps.sk.x.Plus(share.x)
+		tps.sk.x.Mod(tps.Curve.GroupOrder)
 		for i := 0; i < len(tps.sk.ys); i++ {
 			tps.sk.ys[i] = tps.sk.ys[i].Plus(share.ys[i])
+			tps.sk.ys[i].Mod(tps.Curve.GroupOrder)
 		}
 	}
 
